@@ -92,7 +92,7 @@ def emit(d):
     vt = vec_type(kind)
     names = ", ".join(rs(x) for x in d["vec_labels"])
     if base_kind(kind) == "Histogram":
-        ctor = f'HistogramVec::new(HistogramOpts::new("c19_d{i}", "help").buckets(vec![1e300]), &[{names}]).unwrap()'
+        ctor = f'HistogramVec::new(HistogramOpts::new("c19_d{i}", "help").buckets(vec![4096.0, 1048576.0, 1073741824.0, 1e300]), &[{names}]).unwrap()'
     else:
         ctor = f'{vt}::new(Opts::new("c19_d{i}", "help"), &[{names}]).unwrap()'
     o.append(f"    lazy_static::lazy_static! {{\n        pub static ref VEC: {vt} = {ctor};\n")
